@@ -212,8 +212,25 @@ def gen(rnd: random.Random, opts: dict) -> Design:
         if D.deford[a] > D.deford[b2]:
             a, b2 = b2, a
         D.sb.append((a, b2, rnd.random() < opts.get("p_rd", 0.4)))
+    if rnd.random() < opts.get("p_rel_order", 0.15) and len(keys) >= 3:
+        # forced layout class: one body is the start of an ordinary relation (declared first) AND of a ready-dependent schedule_before (declared
+        # later): every relation of a body must be looked at, whatever was declared before it
+        rds = [x for x in D.sb if x[2]]
+        if rds:
+            a, b2, _ = rnd.choice(rds)
+        else:
+            a, b2 = rnd.sample(keys, 2)
+            if D.deford[a] > D.deford[b2]:
+                a, b2 = b2, a
+            D.sb.append((a, b2, True))
+        others = [k for k in keys if k not in (a, b2)]
+        D.confl.append((a, rnd.choice(others), Priority.UNDEFINED))
+        D.rel_order_pattern = True
     if rnd.random() < opts.get("p_mixed", 0.25):
         add_mixed_chain_pattern(D, rnd)
+        keys = list(D.bodies)
+    if rnd.random() < opts.get("p_nonex_depth", 0.1):
+        add_nonexclusive_depth_pattern(D, rnd)
         keys = list(D.bodies)
     if rnd.random() < opts.get("p_triangle", 0.1):
         add_priority_triangle_pattern(D, rnd)
@@ -371,6 +388,35 @@ def add_mixed_chain_pattern(D, rnd):
     s2 = new_site(D, t2, n_idx, pos=t2.pos + ((("if", sid), 0),))
     s3 = new_site(D, t2, m_idx, pos=t2.pos + ((("if", sid), 1),))
     t2.stmts.append(("if", sid, [cbit], [[("call", s2)]], [("call", s3)]))
+    return True
+
+
+def add_nonexclusive_depth_pattern(D, rnd):
+    """Forced layout class: a nonexclusive method N whose body calls an exclusive method M, called by one transaction directly (T1 -> N -> M) and
+    by another through an ordinary exclusive wrapper (T2 -> W -> N -> M): the top-most common ancestor of the two call paths is N, so the two
+    transactions do NOT conflict and must be able to run together."""
+    tops = [b for b in D.order if b.kind == "t"]
+    if len(tops) < 2:
+        return False
+    t1, t2 = rnd.sample(tops, 2)
+    n_idx, m_idx, w_idx = D.nm, D.nm + 1, D.nm + 2
+    D.nm += 3
+    D.meth.append(dict(has_in=False, nonex=True, validate=None, combiner=None, single_caller=False))
+    D.meth.append(dict(has_in=False, nonex=False, validate=None, combiner=None, single_caller=False))
+    D.meth.append(dict(has_in=False, nonex=False, validate=None, combiner=None, single_caller=False))
+    for idx in (n_idx, m_idx, w_idx):
+        b = B("m", idx)
+        b.pos = ((("body", "m", idx), 0),)
+        D.nbits += 1
+        b.rdy = D.nbits - 1
+        D.bodies[b.key] = b
+        D.order.append(b)
+        D.deford[b.key] = len(D.deford)
+    nb, wb = D.bodies[("m", n_idx)], D.bodies[("m", w_idx)]
+    nb.stmts.append(("call", new_site(D, nb, m_idx)))
+    wb.stmts.append(("call", new_site(D, wb, n_idx)))
+    t1.stmts.append(("call", new_site(D, t1, n_idx)))
+    t2.stmts.append(("call", new_site(D, t2, w_idx)))
     return True
 
 
